@@ -1574,6 +1574,25 @@ impl<T: Storage> Raft<T> {
             return;
         }
 
+        // A node whose own vote decides the election becomes leader inside
+        // `campaign` without waiting for any response. `become_leader` relies on
+        // everything in the log being persisted by then, which only holds for a
+        // node that had to send vote requests first.
+        if self.raft_log.last_index() != self.raft_log.persisted
+            && self
+                .prs()
+                .conf()
+                .voters()
+                .vote_result(|id| if id == self.id { Some(true) } else { None })
+                == VoteResult::Won
+        {
+            warn!(
+                self.logger,
+                "cannot campaign at term {} since there are still unpersisted entries", self.term
+            );
+            return;
+        }
+
         info!(
             self.logger,
             "starting a new election";
